@@ -72,20 +72,51 @@ Definition set_del (x : N) (l : list N) : list N := filter (fun y => negb (x =? 
 
 Definition registers (f : frame) : bool := is_ctx_topic (f_topic f) && (f_ctx f =? 0).
 
+Definition get (s : store) (i : N) : option frame := kv_get (skey i) (s_stream s).
+
+(* an import may carry an id that is already stored.  Under the same (context, topic) the three
+   keys are the same and the put simply overwrites; under another context or topic the OLD frame's
+   two index entries (and its registration, if it was one) must go in the same batch - the fix
+   "drop the index entries of a frame that an import overwrites"; [overwrite_leaves_index] is the
+   pinned code, which left them behind (F7) *)
+Definition same_keys (old f : frame) : bool :=
+  (f_ctx old =? f_ctx f) && bytes_eqb (f_topic old) (f_topic f).
+
+Definition drop_old (s : store) (f : frame) : store :=
+  match get s (f_id f) with
+  | Some old =>
+      if same_keys old f then s
+      else mkStore (s_stream s)
+                   (kv_del (tkey old) (s_itopic s))
+                   (kv_del (ckey old) (s_ictx s))
+                   (if registers old then set_del (f_id old) (s_ctxs s) else s_ctxs s)
+                   (s_gcq s) (s_now s) (s_bcast s)
+  | None => s
+  end.
+
 (* Store::insert_frame: one atomic batch over the three partitions.
    [reg = true] is the code after the fix "register an imported xs.context frame
    immediately"; [reg = false] is the pinned behaviour, kept as a regression witness. *)
-Definition insert_frame_gen (reg : bool) (s : store) (f : frame) : result unit * store :=
-  if has_nul (f_topic f) then (Err ErrNul, s)
-  else (Ok tt,
+Definition insert_frame_gen (reg : bool) (s0 : store) (f : frame) : result unit * store :=
+  if has_nul (f_topic f) then (Err ErrNul, s0)
+  else
+    let s := drop_old s0 f in
+    (Ok tt,
         mkStore (kv_put (skey (f_id f)) f (s_stream s))
                 (kv_put (tkey f) tt (s_itopic s))
                 (kv_put (ckey f) tt (s_ictx s))
                 (if reg && registers f then set_add (f_id f) (s_ctxs s) else s_ctxs s)
                 (s_gcq s) (s_now s) (s_bcast s)).
+(* the pinned code: no drop_old *)
+Definition insert_frame_leaves_index (s : store) (f : frame) : result unit * store :=
+  if has_nul (f_topic f) then (Err ErrNul, s)
+  else (Ok tt,
+        mkStore (kv_put (skey (f_id f)) f (s_stream s))
+                (kv_put (tkey f) tt (s_itopic s))
+                (kv_put (ckey f) tt (s_ictx s))
+                (if registers f then set_add (f_id f) (s_ctxs s) else s_ctxs s)
+                (s_gcq s) (s_now s) (s_bcast s)).
 Definition insert_frame := insert_frame_gen true.
-
-Definition get (s : store) (i : N) : option frame := kv_get (skey i) (s_stream s).
 
 (* Store::remove *)
 Definition remove (s : store) (i : N) : result unit * store :=
